@@ -194,30 +194,26 @@ where T: Num + palette::bool_mask::HasBoolMask<Mask = bool> {
 // ---- CAM16 forward model: Li, Li, Wang, Zu, Luo, Cui, Melgosa, Brill, Pointer (2017), with XYZ on a 0..100 scale ----
 /// xyz, white on the 0..1 scale (as palette stores them); la = adapting luminance, yb = background luminance factor (0..1),
 /// surround = (c, F, N_c); D computed by the default formula. -> (J, C, h, Q, M, s)
-pub struct Cam16Spec<T> { pub a: T, pub b: T, pub h_rad: T, pub h: T, pub et: T, pub big_a: T, pub aw: T, pub t: T, pub j: T, pub c: T, pub q: T, pub m: T, pub s: T, pub fl: T, pub nbb: T, pub z: T, pub n: T, pub d: T }
+pub struct Cam16Spec<T> { pub ra: T, pub ga: T, pub ba: T, pub a: T, pub b: T, pub h_rad: T, pub h: T, pub et: T, pub big_a: T, pub aw: T, pub t: T, pub j: T, pub c: T, pub q: T, pub m: T, pub s: T, pub fl: T, pub nbb: T, pub z: T, pub n: T, pub d: T }
 pub fn cam16_forward<T: Num>(xyz: (T, T, T), white: (f64, f64, f64), la: T, yb: f64, surround: (f64, f64, f64)) -> (T, T, T, T, T, T) {
     let r = cam16_forward_cie(xyz, white, la, yb, surround);
     (r.j, r.c, r.h, r.q, r.m, r.s)
 }
-/// The published forward model, step by step (Li et al. 2017 / CIE 248:2022, steps 0-7), intermediates included.
-/// e_t is evaluated on the radian hue angle atan2(b, a): the publication's cos(h * pi/180 + 2) with h = that angle in degrees
-/// normalised to [0, 360) is the same number (cos has period 2 pi).
-pub fn cam16_forward_cie<T: Num>(xyz: (T, T, T), white: (f64, f64, f64), la: T, yb: f64, surround: (f64, f64, f64)) -> Cam16Spec<T> {
-    use palette::angle::RealAngle;
-    use palette::num::{Exp, Powf, Sqrt, Trigonometry};
+/// Viewing-condition dependent quantities of CAM16 (step 0 of the published model).
+#[derive(Clone, Copy)]
+pub struct Cam16Vc<T> { pub d_rgb: [T; 3], pub fl: T, pub fl4: T, pub n: T, pub nbb: T, pub ncb: T, pub nc: T, pub aw: T, pub c: T, pub z: T, pub d: T }
+/// Step 0 of the published model (Li et al. 2017 / CIE 248:2022): white on the 0..1 scale, la = adapting luminance,
+/// yb = background luminance factor (0..1), surround = (c, F, N_c); D by the default formula, clamped to [0, 1].
+pub fn cam16_viewing_conditions<T: Num>(white: (f64, f64, f64), la: T, yb: f64, surround: (f64, f64, f64)) -> Cam16Vc<T> {
+    use palette::num::{Exp, Powf, Sqrt};
     let k = |v: f64| T::k(v);
-    let m16 = |x: T, y: T, z: T| -> (T, T, T) {
-        (k(0.401288) * x + k(0.650173) * y - k(0.051461) * z,
-         k(-0.250268) * x + k(1.204414) * y + k(0.045854) * z,
-         k(-0.002079) * x + k(0.048952) * y + k(0.953127) * z)
-    };
     let (c, f, nc) = surround;
     let (xw, yw, zw) = (k(white.0) * k(100.0), k(white.1) * k(100.0), k(white.2) * k(100.0));
-    let (rw, gw, bw) = m16(xw, yw, zw);
+    let (rw, gw, bw) = cam16_m16(xw, yw, zw);
     let d0 = k(f) * (k(1.0) - k(1.0) / k(3.6) * ((-la - k(42.0)) / k(92.0)).exp());
     let d = T::ite(&T::p_le(&d0, &k(0.0)), k(0.0), T::ite(&T::p_le(&k(1.0), &d0), k(1.0), d0));
     let dr = |cw: T| d * yw / cw + k(1.0) - d;
-    let (dr_r, dr_g, dr_b) = (dr(rw), dr(gw), dr(bw));
+    let d_rgb = [dr(rw), dr(gw), dr(bw)];
     let kk = k(1.0) / (k(5.0) * la + k(1.0));
     let k4 = kk * kk * kk * kk;
     let fl = k(0.2) * k4 * (k(5.0) * la) + k(0.1) * (k(1.0) - k4) * (k(1.0) - k4) * (k(5.0) * la).powf(k(1.0) / k(3.0));
@@ -225,17 +221,40 @@ pub fn cam16_forward_cie<T: Num>(xyz: (T, T, T), white: (f64, f64, f64), la: T, 
     let z = k(1.48) + n.sqrt();
     // N_bb = 0.725 (1/n)^0.2, written with the negative exponent
     let nbb = k(0.725) * n.powf(k(-0.2));
-    let ncb = nbb;
-    let adapt = |x: T| -> T {
-        let ax = T::ite(&T::p_le(&k(0.0), &x), x, -x);
-        let p = (fl * ax / k(100.0)).powf(k(0.42));
-        let v = k(400.0) * p / (p + k(27.13));
-        T::ite(&T::p_le(&k(0.0), &x), v, -v) + k(0.1)
-    };
-    let (raw, gaw, baw) = (adapt(dr_r * rw), adapt(dr_g * gw), adapt(dr_b * bw));
+    let fl4 = fl.powf(k(0.25));
+    let (raw, gaw, baw) = (cam16_adapt(fl, d_rgb[0] * rw), cam16_adapt(fl, d_rgb[1] * gw), cam16_adapt(fl, d_rgb[2] * bw));
     let aw = (k(2.0) * raw + gaw + baw / k(20.0) - k(0.305)) * nbb;
-    let (r, g, b) = m16(xyz.0 * k(100.0), xyz.1 * k(100.0), xyz.2 * k(100.0));
-    let (ra, ga, ba) = (adapt(dr_r * r), adapt(dr_g * g), adapt(dr_b * b));
+    Cam16Vc { d_rgb, fl, fl4, n, nbb, ncb: nbb, nc: k(nc), aw, c: k(c), z, d }
+}
+pub fn cam16_m16<T: Num>(x: T, y: T, z: T) -> (T, T, T) {
+    let k = |v: f64| T::k(v);
+    (k(0.401288) * x + k(0.650173) * y - k(0.051461) * z,
+     k(-0.250268) * x + k(1.204414) * y + k(0.045854) * z,
+     k(-0.002079) * x + k(0.048952) * y + k(0.953127) * z)
+}
+/// post-adaptation cone response: 400 sign(x) (F_L |x| / 100)^0.42 / ((F_L |x| / 100)^0.42 + 27.13) + 0.1
+pub fn cam16_adapt<T: Num>(fl: T, x: T) -> T {
+    use palette::num::Powf;
+    let k = |v: f64| T::k(v);
+    let ax = T::ite(&T::p_le(&k(0.0), &x), x, -x);
+    let p = (fl * ax / k(100.0)).powf(k(0.42));
+    let v = k(400.0) * p / (p + k(27.13));
+    T::ite(&T::p_le(&k(0.0), &x), v, -v) + k(0.1)
+}
+/// The published forward model, step by step (Li et al. 2017 / CIE 248:2022, steps 0-7), intermediates included.
+/// e_t is evaluated on the radian hue angle atan2(b, a): the publication's cos(h * pi/180 + 2) with h = that angle in degrees
+/// normalised to [0, 360) is the same number (cos has period 2 pi).
+pub fn cam16_forward_cie<T: Num>(xyz: (T, T, T), white: (f64, f64, f64), la: T, yb: f64, surround: (f64, f64, f64)) -> Cam16Spec<T> {
+    cam16_forward_cie_with(xyz, cam16_viewing_conditions(white, la, yb, surround))
+}
+/// Steps 1-7 for given viewing-condition quantities.
+pub fn cam16_forward_cie_with<T: Num>(xyz: (T, T, T), vc: Cam16Vc<T>) -> Cam16Spec<T> {
+    use palette::angle::RealAngle;
+    use palette::num::{Powf, Sqrt, Trigonometry};
+    let k = |v: f64| T::k(v);
+    let Cam16Vc { d_rgb, fl, fl4, n, nbb, ncb, nc, aw, c, z, d } = vc;
+    let (r, g, b) = cam16_m16(xyz.0 * k(100.0), xyz.1 * k(100.0), xyz.2 * k(100.0));
+    let (ra, ga, ba) = (cam16_adapt(fl, d_rgb[0] * r), cam16_adapt(fl, d_rgb[1] * g), cam16_adapt(fl, d_rgb[2] * b));
     let a = ra - k(12.0) * ga / k(11.0) + ba / k(11.0);
     let bb = (ra + ga - k(2.0) * ba) / k(9.0);
     let h_rad = bb.atan2(a);
@@ -243,13 +262,13 @@ pub fn cam16_forward_cie<T: Num>(xyz: (T, T, T), white: (f64, f64, f64), la: T, 
     let h = T::ite(&T::p_lt(&h0, &k(0.0)), h0 + k(360.0), h0);
     let et = k(0.25) * ((h_rad + k(2.0)).cos() + k(3.8));
     let big_a = (k(2.0) * ra + ga + ba / k(20.0) - k(0.305)) * nbb;
-    let j = k(100.0) * (big_a / aw).powf(k(c) * z);
-    let q = k(4.0) / k(c) * (j / k(100.0)).sqrt() * (aw + k(4.0)) * fl.powf(k(0.25));
-    let t = (k(50000.0) / k(13.0) * k(nc) * ncb * et * (a * a + bb * bb).sqrt()) / (ra + ga + k(21.0) * ba / k(20.0));
+    let j = k(100.0) * (big_a / aw).powf(c * z);
+    let q = k(4.0) / c * (j / k(100.0)).sqrt() * (aw + k(4.0)) * fl4;
+    let t = (k(50000.0) / k(13.0) * nc * ncb * et * (a * a + bb * bb).sqrt()) / (ra + ga + k(21.0) * ba / k(20.0));
     let cc = t.powf(k(0.9)) * (j / k(100.0)).sqrt() * (k(1.64) - k(0.29).powf(n)).powf(k(0.73));
-    let m = cc * fl.powf(k(0.25));
+    let m = cc * fl4;
     let s = k(100.0) * (m / q).sqrt();
-    Cam16Spec { a, b: bb, h_rad, h, et, big_a, aw, t, j, c: cc, q, m, s, fl, nbb, z, n, d }
+    Cam16Spec { ra, ga, ba, a, b: bb, h_rad, h, et, big_a, aw, t, j, c: cc, q, m, s, fl, nbb, z, n, d }
 }
 
 // ---- Ottosson: Okhsl / Okhsv and the sRGB gamut helpers (ok_color.h, "Okhsv and Okhsl", 2021) ----
